@@ -1,10 +1,17 @@
 /-
   C01 — propagated position/velocity conform to the published SGP4 near-earth model.
-  Theorems over ℝ about PV.Model.Sgp4 against PV.Spec.Str3.
+  Theorems over ℝ about PV.Model.Sgp4 (the code) against PV.Spec.Str3 (Spacetrack Report #3).
+
+  Set-up: `e : Sgp4.Elements ℝ` is the code's `OrbitElements`; `toEl e` the report's element set
+  (`xno` := the TLE's Kozai mean motion `e.xn_0`).  Helper lemmas: PV/Lemmas/C01*.lean.
+
+  Remark on divisions.  All coefficient identities below are *rearrangements*: every denominator of the code's
+  expression is a denominator of the report's expression and vice versa, nothing is cancelled, so the equalities do
+  not lean on `x / 0 = 0`.  Where a cancellation or a power law is used (`a^1.5 = a·√a`) the guard that the code
+  relies on is an explicit hypothesis and its origin is named.
 -/
-import PV.NumReal
-import PV.Model.Sgp4
-import PV.Spec.Str3
+import PV.Lemmas.C01Prop
+import PV.Lemmas.C01Examples
 namespace PV.C01
 open PV PV.Sgp4
 
@@ -18,5 +25,301 @@ theorem velocity_unit : (XKMPER * XMNPDA / SECDAY : ℝ) = 106.30225 := by
 /-- the position normalisation constant is 6378.135 km -/
 theorem position_unit : (XKMPER : ℝ) = 6378.135 := by
   simp only [XKMPER, Gen.orbital_XKMPER, r_ofSci]
+
+/-! ## 1. constants (tie T-B) -/
+
+/-- every constant the model takes from the (regenerated) source equals the report's value -/
+theorem consts_match :
+    (Sgp4.XKE : ℝ) = Str3.XKE ∧ (Sgp4.CK2 : ℝ) = Str3.CK2 ∧ (Sgp4.CK4 : ℝ) = Str3.CK4 ∧
+    (Sgp4.QOMS2T : ℝ) = Str3.QOMS2T ∧ (Sgp4.XKMPER : ℝ) = Str3.XKMPER ∧ (Sgp4.XMNPDA : ℝ) = Str3.XMNPDA ∧
+    (Sgp4.AE : ℝ) = 1 ∧ (Sgp4.KS : ℝ) = Str3.S ∧ (Sgp4.A3OVK2 : ℝ) = Str3.A3OVK2 ∧
+    (Sgp4.PERIOD_DEEP : ℝ) = 225 ∧ (Sgp4.PERIGEE_SIMP : ℝ) = 220 ∧ (Sgp4.PERIGEE_S4 : ℝ) = 156 ∧
+    (Sgp4.S4_OFFSET : ℝ) = 78 ∧ (Sgp4.S4_MIN : ℝ) = 20 ∧ (Sgp4.S4_MIN' : ℝ) = 20 ∧ (Sgp4.Q0 : ℝ) = 120 ∧
+    (Sgp4.ECC_ALL : ℝ) = 1e-4 ∧ (Sgp4.EPS_COS : ℝ) = 1.5e-12 ∧ (Sgp4.ECC_EPS : ℝ) = 1e-6 ∧
+    (Sgp4.ECC_LIMIT_HIGH : ℝ) = 1 - 1e-6 ∧ (Sgp4.ECC_LIMIT_LOW : ℝ) = -1e-3 ∧ (Sgp4.NR_EPS : ℝ) = 1e-12 ∧
+    (Sgp4.SECDAY : ℝ) = 86400 :=
+  ⟨XKE_eq, CK2_eq, CK4_eq, QOMS2T_eq, XKMPER_eq, XMNPDA_eq, AE_eq, KS_eq, A3OVK2_eq, PERIOD_DEEP_eq, PERIGEE_SIMP_eq,
+    PERIGEE_S4_eq, S4_OFFSET_eq, S4_MIN_eq, S4_MIN'_eq, Q0_eq, ECC_ALL_eq, EPS_COS_eq, ECC_EPS_eq, ECC_LIMIT_HIGH_eq,
+    ECC_LIMIT_LOW_eq, NR_EPS_eq, SECDAY_eq⟩
+
+/-- the report's constants as numbers (so `consts_match` is about the published literals; `S` is the defining
+    expression 1 + 78/XKMPER, DESIGN section 7) -/
+theorem str3_values :
+    (Str3.XKE : ℝ) = 0.0743669161 ∧ (Str3.CK2 : ℝ) = 5.413080e-4 ∧ (Str3.CK4 : ℝ) = 0.62098875e-6 ∧
+    (Str3.QOMS2T : ℝ) = 1.88027916e-9 ∧ (Str3.XKMPER : ℝ) = 6378.135 ∧ (Str3.XMNPDA : ℝ) = 1440 ∧
+    (Str3.S : ℝ) = 1 + 78 / 6378.135 ∧ (Str3.A3OVK2 : ℝ) = 0.253881e-5 / 5.413080e-4 := by
+  refine ⟨?_, ?_, ?_, ?_, ?_, ?_, ?_, ?_⟩ <;>
+    simp only [Str3.XKE, Str3.CK2, Str3.CK4, Str3.QOMS2T, Str3.XKMPER, Str3.XMNPDA, Str3.S, Str3.A3OVK2, Str3.XJ3,
+      r_ofSci, r_ofNat, r_add, r_div, r_neg] <;> norm_num
+
+/-! ## 2. Kozai → Brouwer recovery, perigee, period -/
+
+/-- `_calculate_basic_orbit_params` = the report's recovery of n₀″, a₀″.  The hypotheses are the guards the code
+    gives (`_check_orbital_elements`: 0 < eo < 1−1e-6, so β₀² > 0, β₀ ≠ 0); the identity itself is a rearrangement
+    with identical denominators on both sides (β₀β₀², a₁², a₀², 1±δ₀), so they are not needed by the proof. -/
+theorem basic_eq_recover (e : Sgp4.Elements ℝ) (_he0 : 0 < e.eo) (_he1 : e.eo < 1) :
+    (basic e).xnodp = (Str3.recover (toEl e)).xnodp ∧ (basic e).aodp = (Str3.recover (toEl e)).aodp :=
+  ⟨basic_xnodp_eq e, basic_aodp_eq e⟩
+
+theorem perigee_eq (e : Sgp4.Elements ℝ) : (basic e).perigee = Str3.perigeeKm (toEl e) := perigee_eq' e
+
+/-- the code's `(2π·1440/XMNPDA)/xnodp` is the report's period 2π/n₀″ (minutes) because XMNPDA = 1440 -/
+theorem period_eq (e : Sgp4.Elements ℝ) : (basic e).period = Str3.periodMin (toEl e) := period_eq' e
+
+/-! ## 3. s4 / qoms24 -/
+
+/-- `_get_s4_qoms24` = the report's adjustment, for every perigee: the code floors with `perigee − 78 < 20`, the
+    report with `perigee ≤ 98`; at 98 both give 20 -/
+theorem s4q_eq (l : Str3.El ℝ) (perigee : ℝ) (hp : perigee = Str3.perigeeKm l) :
+    Sgp4.s4qoms24 perigee = Str3.s4q l := s4q_eq_of l perigee hp
+
+/-! ## 4. the initialisation coefficients -/
+
+/-- NEAR_NORM: every coefficient of `_SGDP4Base.__init__` equals the report's.  (Guards: the code divides by `eo`
+    only under `eo > 1e-4`, as the report's AIAA amendment does; the `1 + cos i` guard is the same `sign·1.5e-12`.) -/
+theorem coeffs_eq_str3 (e : Sgp4.Elements ℝ) :
+    let p := coeffs e (basic e) .nearNorm
+    let c := Str3.consts (toEl e)
+    p.c1 = c.c1 ∧ p.c2 = c.c2 ∧ p.c3 = c.c3 ∧ p.c4 = c.c4 ∧ p.c5 = c.c5 ∧ p.xmdot = c.xmdot ∧ p.omgdot = c.omgdot ∧
+    p.xnodot = c.xnodot ∧ p.omgcof = c.omgcof ∧ p.xmcof = c.xmcof ∧ p.xnodcf = c.xnodcf ∧ p.t2cof = c.t2cof ∧
+    p.xlcof = c.xlcof ∧ p.aycof = c.aycof ∧ p.delmo = c.delmo ∧ p.sinXMO = c.sinmo ∧ p.d2 = c.d2 ∧ p.d3 = c.d3 ∧
+    p.d4 = c.d4 ∧ p.t3cof = c.t3cof ∧ p.t4cof = c.t4cof ∧ p.t5cof = c.t5cof ∧ p.eta = c.eta ∧ p.x3thm1 = c.x3thm1 ∧
+    p.x1mth2 = c.x1mth2 ∧ p.x7thm1 = c.x7thm1 ∧ p.xnodp = c.xnodp ∧ p.aodp = c.aodp ∧ p.cosIO = c.cosio ∧
+    p.sinIO = c.sinio :=
+  ⟨c1_eq e _, c2_eq e _, c3_eq e, c4_eq e _, c5_eq e, xmdot_eq e _, omgdot_eq e _, xnodot_eq e _, omgcof_eq e,
+    xmcof_eq e _, xnodcf_eq e _, t2cof_eq e _, xlcof_eq e _, aycof_eq e _, delmo_eq e _, sinXMO_eq e _, d2_eq e _,
+    d3_eq e _, d4_eq e _, t3cof_eq e _, t4cof_eq e _, t5cof_eq e _, eta_eq e _, x3thm1_eq e _, x1mth2_eq e _,
+    x7thm1_eq e _, xnodp_eq e _, aodp_eq e _, cosIO_eq e _, sinIO_eq e _⟩
+
+/-- NEAR_SIMP: the coefficients the simplified branch uses agree; `c5`, `c3`, `omgcof` are zeroed by the code
+    (the report computes them but its ISIMP branch never reads them); d2…t5cof agree too (unused in that branch) -/
+theorem coeffs_simp_eq (e : Sgp4.Elements ℝ) :
+    let p := coeffs e (basic e) .nearSimp
+    let c := Str3.consts (toEl e)
+    p.c1 = c.c1 ∧ p.c2 = c.c2 ∧ p.c4 = c.c4 ∧ p.xmdot = c.xmdot ∧ p.omgdot = c.omgdot ∧
+    p.xnodot = c.xnodot ∧ p.xmcof = c.xmcof ∧ p.xnodcf = c.xnodcf ∧ p.t2cof = c.t2cof ∧
+    p.xlcof = c.xlcof ∧ p.aycof = c.aycof ∧ p.delmo = c.delmo ∧ p.sinXMO = c.sinmo ∧ p.d2 = c.d2 ∧ p.d3 = c.d3 ∧
+    p.d4 = c.d4 ∧ p.t3cof = c.t3cof ∧ p.t4cof = c.t4cof ∧ p.t5cof = c.t5cof ∧ p.eta = c.eta ∧ p.x3thm1 = c.x3thm1 ∧
+    p.x1mth2 = c.x1mth2 ∧ p.x7thm1 = c.x7thm1 ∧ p.xnodp = c.xnodp ∧ p.aodp = c.aodp ∧ p.cosIO = c.cosio ∧
+    p.sinIO = c.sinio ∧ p.c5 = 0 ∧ p.c3 = 0 ∧ p.omgcof = 0 :=
+  ⟨c1_eq e _, c2_eq e _, c4_eq e _, xmdot_eq e _, omgdot_eq e _, xnodot_eq e _,
+    xmcof_eq e _, xnodcf_eq e _, t2cof_eq e _, xlcof_eq e _, aycof_eq e _, delmo_eq e _, sinXMO_eq e _, d2_eq e _,
+    d3_eq e _, d4_eq e _, t3cof_eq e _, t4cof_eq e _, t5cof_eq e _, eta_eq e _, x3thm1_eq e _, x1mth2_eq e _,
+    x7thm1_eq e _, xnodp_eq e _, aodp_eq e _, cosIO_eq e _, sinIO_eq e _, c5_simp e, c3_simp e, omgcof_simp e⟩
+
+/-- the code's mode test is the report's ISIMP flag -/
+theorem isimp_eq_mode (e : Sgp4.Elements ℝ) :
+    (Str3.consts (toEl e)).isimp = true ↔ modeOf (basic e).perigee = .nearSimp := by
+  rw [consts_isimp, isimp_iff, modeOf_eq, decide_eq_true_eq]
+  constructor
+  · intro h; rw [if_pos h]
+  · intro h; by_contra hn; rw [if_neg hn] at h; exact absurd h (by decide)
+
+/-! ## 5. secular gravity and drag -/
+
+/-- `_calculate_e`'s clamp is the spec's `min (max e 1e-6) (1 − 1e-6)` -/
+theorem clampE_eq (x : ℝ) : Sgp4.clampE x = Num.min (Num.max x (1e-6 : ℝ)) ((1 : ℝ) - (1e-6 : ℝ)) := clampE_eq' x
+
+/-- NEAR_NORM secular/drag update (Horner form) = the report's explicit powers of TSINCE.
+    `hi`: the report's ISIMP flag is off, i.e. perigee ≥ 220 km (`isimp_eq_mode`, `init_near_norm`). -/
+theorem secular_eq_str3 (e : Sgp4.Elements ℝ) (hi : (Str3.consts (toEl e)).isimp = false) (ts : ℝ) :
+    let s := secular (coeffs e (basic e) .nearNorm) ts
+    let m := Str3.mean (toEl e) (Str3.consts (toEl e)) ts
+    s.xmp = m.xmp ∧ s.omega = m.omega ∧ s.xnode = m.xnode ∧ s.a = m.a ∧ clampE s.e0 = m.e := by
+  have h := corrNorm_coeffs e
+  have hm := (coeffs_fields e (basic e) .nearNorm).1
+  exact ⟨secular_xmp_norm h hi ts, secular_omega_norm h hi ts, secular_xnode h.toCorr ts, secular_a_norm h hm hi ts,
+    secular_e0_norm h hm hi ts⟩
+
+/-- FINDING (latent: `propagate` refuses NEAR_SIMP).  In the simplified-drag branch the code still applies
+    `delm = xmcof·((1+η cos M_DF)³ − DELMO)` to M and ω (orbital.py:1044-1047, 1069 have no mode test; only `omgcof`
+    is zeroed), while the report's ISIMP branch skips DELOMG *and* DELM.  Exact difference: -/
+theorem simp_branch_difference (e : Sgp4.Elements ℝ) (hi : (Str3.consts (toEl e)).isimp = true) (ts : ℝ) :
+    let s := secular (coeffs e (basic e) .nearSimp) ts
+    let c := Str3.consts (toEl e)
+    let m := Str3.mean (toEl e) c ts
+    s.xmp = m.xmp + c.xmcof * ((1 + c.eta * Real.cos (e.xmo + c.xmdot * ts)) ^ 3 - c.delmo) ∧
+    s.omega = m.omega - c.xmcof * ((1 + c.eta * Real.cos (e.xmo + c.xmdot * ts)) ^ 3 - c.delmo) :=
+  ⟨secular_xmp_simp (corr_coeffs e _) (omgcof_simp e) hi ts, secular_omega_simp (corr_coeffs e _) (omgcof_simp e) hi ts⟩
+
+/-- PARTIAL: the code's NEAR_SIMP step equals the report's ISIMP step under the extra hypothesis `xmcof = 0`
+    (true for `eo ≤ 1e-4` or `B* = 0`).  Missing for the full statement: the `delm` term of
+    `simp_branch_difference`, a genuine difference between code and report.  `a`, `e`, `Ω` agree unconditionally. -/
+theorem simp_branch_eq_str3_partial (e : Sgp4.Elements ℝ) (hi : (Str3.consts (toEl e)).isimp = true)
+    (hx : (Str3.consts (toEl e)).xmcof = 0) (ts : ℝ) :
+    let p := coeffs e (basic e) .nearSimp
+    let s := secular p ts
+    let m := Str3.mean (toEl e) (Str3.consts (toEl e)) ts
+    s.xmp = m.xmp ∧ s.omega = m.omega ∧ s.xnode = m.xnode ∧ s.a = m.a ∧ clampE s.e0 = m.e ∧
+    (longPeriod p s).axn = m.axn ∧ (longPeriod p s).ayn = m.ayn ∧ (longPeriod p s).xlt - s.xnode = m.capu := by
+  have h := corr_coeffs e .nearSimp
+  have hm := (coeffs_fields e (basic e) .nearSimp).1
+  have ho := omgcof_simp e
+  exact ⟨secular_xmp_simp0 h ho hx hi ts, secular_omega_simp0 h ho hx hi ts, secular_xnode h ts, secular_a_simp h hm hi ts,
+    secular_e0_simp h hm hi ts, lp_axn_simp0 h hm ho hx hi ts, lp_ayn_simp0 h hm ho hx hi ts,
+    lp_capu_simp0 h hm ho hx hi ts⟩
+
+/-- the part of the simplified branch that needs no extra hypothesis -/
+theorem simp_branch_a_e_node (e : Sgp4.Elements ℝ) (hi : (Str3.consts (toEl e)).isimp = true) (ts : ℝ) :
+    let s := secular (coeffs e (basic e) .nearSimp) ts
+    let m := Str3.mean (toEl e) (Str3.consts (toEl e)) ts
+    s.xnode = m.xnode ∧ s.a = m.a ∧ clampE s.e0 = m.e := by
+  have h := corr_coeffs e .nearSimp
+  have hm := (coeffs_fields e (basic e) .nearSimp).1
+  exact ⟨secular_xnode h ts, secular_a_simp h hm hi ts, secular_e0_simp h hm hi ts⟩
+
+/-! ## 6. long-period periodics -/
+
+/-- a_xN, a_yN and U.  The model reduces U with `fmod(·, 2π)` (orbital.py:1148); before the reduction it is the
+    report's `U = L_T − Ω`, and the reduced value is `fmod` of the report's. -/
+theorem longPeriod_eq_str3 (e : Sgp4.Elements ℝ) (hi : (Str3.consts (toEl e)).isimp = false) (ts : ℝ) :
+    let p := coeffs e (basic e) .nearNorm
+    let s := secular p ts
+    let m := Str3.mean (toEl e) (Str3.consts (toEl e)) ts
+    (longPeriod p s).e = m.e ∧ (longPeriod p s).axn = m.axn ∧ (longPeriod p s).ayn = m.ayn ∧
+    (longPeriod p s).xlt - s.xnode = m.capu ∧ (longPeriod p s).capu = Num.fmod m.capu (2 * Real.pi) ∧
+    (longPeriod p s).elsq = m.axn * m.axn + m.ayn * m.ayn := by
+  have h := corrNorm_coeffs e
+  have hm := (coeffs_fields e (basic e) .nearNorm).1
+  refine ⟨lp_e_norm h hm hi ts, lp_axn_norm h hm hi ts, lp_ayn_norm h hm hi ts, lp_capu_norm h hm hi ts, ?_, ?_⟩
+  · rw [longPeriod_capu, lp_capu_norm h hm hi ts]
+  · rw [longPeriod_elsq, lp_axn_norm h hm hi ts, lp_ayn_norm h hm hi ts]
+
+/-! ## 7. short-period periodics, orientation vectors, units -/
+
+/-- Given the same Kepler iterate `x` (the loop's sin/cos/e·cosE/e·sinE are those of `x`), `kep2xyz ∘ shortPeriod`
+    is the report's state (position km, velocity km/s).  `ha : 0 < a` is the code's "Satellite crashed" guard
+    (`a < 1` raises, orbital.py:1096) and is what `XKE/(a√a) = XKE/a^1.5` needs.  Covers `_update_short_period`,
+    `_collect_return_values`, `kep2xyz` and the `XKMPER/AE·XMNPDA/86400` scaling. -/
+theorem shortPeriod_kep2xyz_eq_str3 (e : Sgp4.Elements ℝ) (mode : Mode) (s : Sgp4.Secular ℝ) (lp : Sgp4.LongPeriod ℝ)
+    (nw : Sgp4.Newton ℝ) (m : Str3.Mean ℝ) (x : ℝ)
+    (ha : s.a = m.a) (hn : s.xnode = m.xnode) (hax : lp.axn = m.axn) (hay : lp.ayn = m.ayn)
+    (hel : lp.elsq = lp.axn * lp.axn + lp.ayn * lp.ayn) (hxn : m.xn = Str3.XKE / m.a ^ (1.5 : ℝ)) (hpos : 0 < m.a)
+    (hnw : nw.sinEPW = Real.sin x ∧ nw.cosEPW = Real.cos x ∧
+      nw.ecosE = m.axn * Real.cos x + m.ayn * Real.sin x ∧ nw.esinE = m.axn * Real.sin x - m.ayn * Real.cos x) :
+    kep2xyz (shortPeriod (coeffs e (basic e) mode) s lp nw) = Str3.state (toEl e) (Str3.consts (toEl e)) m x :=
+  state_core (corr_coeffs e mode) s lp nw m x ha hn hax hay hel hxn hpos hnw
+
+/-! ## 8. Kepler's equation -/
+
+/-- if the ≤ 10-step loop exits through its `break`, the returned `E+ω` solves the report's Kepler equation to
+    1e-12 and the returned sin/cos/e·cosE/e·sinE are those of the returned `E+ω`.
+    (No residual is proved for the exhausted-iterations exit; see `newton_at` for what holds then.) -/
+theorem kepler_residual (axn ayn capu ecc : ℝ) (hc : (newton axn ayn capu ecc).converged = true) :
+    let r := newton axn ayn capu ecc
+    |capu - r.epw + axn * Real.sin r.epw - ayn * Real.cos r.epw| < 1e-12 ∧
+    r.sinEPW = Real.sin r.epw ∧ r.cosEPW = Real.cos r.epw ∧
+    r.ecosE = axn * Real.cos r.epw + ayn * Real.sin r.epw ∧ r.esinE = axn * Real.sin r.epw - ayn * Real.cos r.epw := by
+  obtain ⟨h1, h2⟩ := newton_converged axn ayn capu ecc hc
+  refine ⟨?_, h2⟩
+  rw [add_sub_assoc]; exact h1
+
+/-! ## 9. which modes are answered -/
+
+theorem answers_imply_near_norm (p : Sgp4.Params ℝ) (ts : ℝ) (k : Sgp4.Kep ℝ) (h : propagate p ts = .ok k) :
+    p.mode = .nearNorm := (propagate_ok h).1
+
+/-- an accepted element set in NEAR_NORM mode has perigee ≥ 220 km and period < 225 min, its eccentricity and
+    inclination passed `_check_orbital_elements`, and the report's ISIMP flag is off -/
+theorem init_near_norm (e : Sgp4.Elements ℝ) (p : Sgp4.Params ℝ) (h : init e = .ok p) (hm : p.mode = .nearNorm) :
+    (basic e).perigee ≥ 220 ∧ (basic e).period < 225 ∧ 0 < e.eo ∧ e.eo < 1 - 1e-6 ∧ 0 < e.xincl ∧ e.xincl < Real.pi ∧
+    p = coeffs e (basic e) .nearNorm ∧ (Str3.consts (toEl e)).isimp = false := by
+  obtain ⟨hc, hper, hp⟩ := init_ok h
+  obtain ⟨g1, g2, g3, g4⟩ := checkElements_none hc
+  have hmode : modeOf (basic e).perigee = .nearNorm := by
+    rw [hp, (coeffs_fields e (basic e) _).1] at hm; exact hm
+  have hge : (basic e).perigee ≥ 220 := by
+    rw [modeOf_eq] at hmode
+    by_contra hlt
+    rw [if_pos (not_le.mp hlt)] at hmode
+    exact absurd hmode (by decide)
+  refine ⟨hge, hper, g1, g2, g3, g4, by rw [hp, hmode], ?_⟩
+  rw [consts_isimp, isimp_iff]
+  exact decide_eq_false (not_lt.mpr hge)
+
+/-! ## capstone: every answer of `propagate` is the report's state at the code's Kepler iterate -/
+
+/-- For an accepted element set (`init e = ok p`) and any `ts` for which `propagate` answers, the returned
+    Keplerians turned into a state by `kep2xyz` are exactly `Str3.state` of the report's mean quantities at a point
+    `y`; if the Newton loop left through its `break`, `y` is the returned `E+ω` and solves the report's Kepler
+    equation (with `U` reduced by `fmod 2π`, as `Str3.sgp4` does) to 1e-12.  All of secular, drag, long-period,
+    short-period, orientation and unit conversion are covered; what is *not* proved is a residual bound when the
+    10 iterations are exhausted (DESIGN: measured by the oracle). -/
+theorem propagate_eq_str3 (e : Sgp4.Elements ℝ) (p : Sgp4.Params ℝ) (ts : ℝ) (k : Sgp4.Kep ℝ)
+    (hinit : init e = .ok p) (hk : propagate p ts = .ok k) :
+    let l := toEl e
+    let c := Str3.consts l
+    let m := Str3.mean l c ts
+    let nw := newton m.axn m.ayn (Num.fmod m.capu (2 * Real.pi)) (√(m.axn * m.axn + m.ayn * m.ayn))
+    ∃ y, kep2xyz k = Str3.state l c m y ∧
+      (nw.converged = true → y = k.epw ∧
+        |Str3.keplerResidual { m with capu := Num.fmod m.capu (2 * Real.pi) } y| < 1e-12) := by
+  intro l c m nw
+  obtain ⟨hm, hcalc⟩ := propagate_ok hk
+  obtain ⟨-, -, -, -, -, -, hp, hi⟩ := init_near_norm e p hinit hm
+  subst hp
+  obtain ⟨ha1, -, -, hkeq, -⟩ := calculate_ok hcalc
+  obtain ⟨-, l2, l3, -, l5, l6⟩ := longPeriod_eq_str3 e hi ts
+  obtain ⟨-, -, s3, s4, -⟩ := secular_eq_str3 e hi ts
+  rw [l2, l3, l5, l6] at hkeq
+  have hpos : 0 < m.a := by rw [← s4]; linarith
+  have hstate : ∀ y, NewtonAt m.axn m.ayn nw y → kep2xyz k = Str3.state l c m y := fun y hy => by
+    rw [hkeq]
+    exact shortPeriod_kep2xyz_eq_str3 e _ _ _ _ m y s4 s3 l2 l3 (longPeriod_elsq _) (mean_xn ts) hpos hy
+  by_cases hc : nw.converged = true
+  · obtain ⟨r1, r2⟩ := newton_converged _ _ _ _ hc
+    refine ⟨nw.epw, hstate _ r2, fun _ => ⟨?_, ?_⟩⟩
+    · rw [hkeq]; rfl
+    · simp only [Str3.keplerResidual]; c01_bridge
+      rw [add_sub_assoc]; exact r1
+  · obtain ⟨y, hy⟩ := newton_at m.axn m.ayn (Num.fmod m.capu (2 * Real.pi)) (√(m.axn * m.axn + m.ayn * m.ayn))
+    exact ⟨y, hstate y hy, fun h => absurd h hc⟩
+
+/-- the same at the API level: `get_position(normalize=False)` -/
+theorem getPosition_eq_str3 (e : Sgp4.Elements ℝ) (p : Sgp4.Params ℝ) (ts : ℝ) (pv : V3 ℝ × V3 ℝ)
+    (hinit : init e = .ok p) (hg : getPosition p ts false = .ok pv) :
+    ∃ y, pv = Str3.state (toEl e) (Str3.consts (toEl e)) (Str3.mean (toEl e) (Str3.consts (toEl e)) ts) y := by
+  simp only [getPosition] at hg
+  cases hk : propagate p ts with
+  | error err => rw [hk] at hg; exact absurd hg (by simp)
+  | ok k =>
+    rw [hk] at hg
+    simp only [Bool.false_eq_true, if_false] at hg
+    obtain ⟨y, hy, -⟩ := propagate_eq_str3 e p ts k hinit hk
+    exact ⟨y, by rw [← hy]; exact (Except.ok.inj hg).symm⟩
+
+/-! ## 10. normalisation -/
+
+/-- `get_position(normalize=True)` is `get_position(normalize=False)` divided componentwise by
+    (6378.135 km, 106.30225 km/s) -/
+theorem normalize_eq (p : Sgp4.Params ℝ) (ts : ℝ) :
+    getPosition p ts true = (getPosition p ts false).map (fun pv =>
+      (⟨pv.1.x / 6378.135, pv.1.y / 6378.135, pv.1.z / 6378.135⟩,
+       ⟨pv.2.x / 106.30225, pv.2.y / 106.30225, pv.2.z / 106.30225⟩)) := by
+  simp only [getPosition]
+  cases propagate p ts with
+  | error err => rfl
+  | ok k =>
+    simp only [Except.map, if_true, Bool.false_eq_true, if_false]
+    rw [velocity_unit, position_unit]
+
+/-! ## non-vacuity of the hypotheses
+
+  `exEl q bs`: polar orbit, e = 0.28, Kozai mean motion XKE/q³ (a₁ = q²), B* = bs.
+  q = 1.2 → perigee ≈ 233 km (full drag), q = 1.19 → perigee ≈ 126 km (simplified drag).
+  The hypotheses `init e = ok p` / `propagate p ts = ok k` of the capstone are not witnessed over ℝ (that needs
+  interval arithmetic through sin/cos/rpow and ten Newton steps); they are witnessed on Float by the correspondence
+  check, which runs this same model on every generated element set. -/
+
+example (bs : ℝ) : (Str3.consts (toEl (exEl 1.2 bs))).isimp = false := exEl_isimp_false bs
+example (bs : ℝ) : 220 ≤ (basic (exEl 1.2 bs)).perigee := exEl_norm_perigee bs
+example : (Str3.consts (toEl (exEl 1.19 0))).isimp = true ∧ (Str3.consts (toEl (exEl 1.19 0))).xmcof = 0 :=
+  ⟨exEl_isimp_true 0, xmcof_of_bstar_zero _ rfl⟩
+example : (0 : ℝ) < (exEl 1.2 0).eo ∧ (exEl 1.2 0).eo < 1 := by
+  simp only [exEl]; norm_num
+example : (newton (0 : ℝ) 0 1 0).converged = true := newton_example
+/-- the hypotheses of `shortPeriod_kep2xyz_eq_str3` are met by the pipeline itself (used so in `propagate_eq_str3`) -/
+example (e : Sgp4.Elements ℝ) (mode : Mode) : Corr (coeffs e (basic e) mode) (toEl e) (Str3.consts (toEl e)) :=
+  corr_coeffs e mode
 
 end PV.C01
